@@ -20,10 +20,11 @@ type lexCase struct {
 	Path   []int        `json:"path,omitempty"`  // runes pushed (-1 = EOF)
 	Input  []byte       `json:"input,omitempty"` // byte string through the driver
 	L      int          `json:"max_len"`
+	Raw    bool         `json:"raw_text,omitempty"` // non-ASCII code points written verbatim in the .lox text
 }
 
 func lexCaseJSON(fam string, idx int64, s *lexref.Spec, path []int, input []byte, L int) json.RawMessage {
-	b, _ := json.Marshal(lexCase{Family: fam, Index: idx, Spec: s, Text: s.LexerText(), Path: path, Input: input, L: L})
+	b, _ := json.Marshal(lexCase{Family: fam, Index: idx, Spec: s, Text: s.LexerText(), Path: path, Input: input, L: L, Raw: lexref.Raw})
 	return b
 }
 
@@ -147,6 +148,10 @@ func c02One(ws *pipe.Workspace, fam string, idx int64, s *lexref.Spec, L int, st
 	}
 	st.Evaluations++
 	st.Validated++
+	if b.ModeCountProblem != "" {
+		out = append(out, mc.Violation{Property: "C10", Check: property, Kind: "mode-tables-missing", Size: len(s.OneLine()),
+			Case: lexCaseJSON(fam, idx, s, nil, nil, L), Detail: "spec {" + s.OneLine() + "}: " + b.ModeCountProblem})
+	}
 	// C10 rides along: decoded table structure and equality with the DFA object.
 	if prob := checkLexTables(b); prob != "" {
 		out = append(out, mc.Violation{Property: "C10", Check: property, Kind: "lexer-table", Size: len(s.OneLine()),
@@ -269,6 +274,8 @@ func lexReplay(property string, inDomain func(c *lexref.Compiled) (bool, string)
 		ws := pipe.NewWorkspace("lexr")
 		defer ws.Close()
 		var st mc.Stats
+		lexref.Raw = lc.Raw
+		defer func() { lexref.Raw = false }()
 		vs := c02One(ws, lc.Family, lc.Index, lc.Spec, lc.L, &st, property, inDomain)
 		if len(vs) == 0 {
 			return nil
